@@ -1276,6 +1276,64 @@ def m_default(I, st, c, args, body, t):
     return st, _default_of((c.get("generic_args") or ["?"])[0])
 
 
+def m_to_bytes(I, st, c, args, body, t):
+    """uN::to_be_bytes / to_le_bytes / to_ne_bytes (little-endian target): the value's bits cut into bytes, bit-exact"""
+    a = deref(I, st, args[0])
+    nm = c.get("name")
+    if not isinstance(a, IntV) or a.ty not in INT_TYPES:
+        return st, Top(deps_of(a), nm)
+    w = INT_TYPES[a.ty][0]
+    nb = w // 8
+    out = []
+    for k in range(nb):                 # k = byte number, least significant first
+        if a.is_const():
+            v = (a.lo >> (8 * k)) & 0xFF
+            out.append(IntV.const("u8", v))
+        elif a.bits is not None:
+            out.append(IntV("u8", tuple(a.bits[8 * k:8 * k + 8]), None, None, None, a.deps))
+        else:
+            out.append(IntV("u8", None, 0, 255, None, a.deps))
+    if nm == "to_be_bytes":
+        out.reverse()
+    return st, VecV(out, elem_ty="u8")
+
+
+def m_from_bytes(I, st, c, args, body, t):
+    """uN::from_be_bytes / from_le_bytes / from_ne_bytes"""
+    v = deref(I, st, args[0])
+    nm = c.get("name")
+    ty = None
+    for part in (c.get("instance") or c.get("path") or "").split("<impl "):
+        cand = part.split(">")[0].strip()
+        if cand in INT_TYPES:
+            ty = cand
+    if ty is None or not (isinstance(v, VecV) and v.elems is not None and len(v.elems) * 8 == INT_TYPES[ty][0]
+                          and all(isinstance(e, IntV) for e in v.elems)):
+        return st, Top(deps_of(v), nm)
+    el = list(v.elems)
+    if nm == "from_be_bytes":
+        el.reverse()                    # now least significant byte first
+    if all(e.is_const() for e in el):
+        n = 0
+        for k, e in enumerate(el):
+            n |= (e.lo & 0xFF) << (8 * k)
+        w, signed = INT_TYPES[ty]
+        if signed and n >> (w - 1):
+            n -= 1 << w
+        return st, IntV.const(ty, n)
+    bits = []
+    d = frozenset()
+    for e in el:
+        d |= e.deps
+        if e.is_const():
+            bits.extend(((e.lo >> i) & 1) for i in range(8))
+        elif e.bits is not None:
+            bits.extend(e.bits[:8])
+        else:
+            bits.extend([M.TBIT] * 8)
+    return st, IntV(ty, tuple(bits), None, None, None, d)
+
+
 def m_or_else(I, st, c, args, body, t):
     o = opt_cases(I, st, args[0])
     if o.only("Some"):
@@ -1575,10 +1633,22 @@ def m_hm_readonly(I, st, c, args, body, t):
     row_cell = I.side.get("row_cell")
     if nm in ("len", "capacity"):
         return st, IntV("usize", None, 0, 1 << 40, None, d)
+    mode = I.side.get("table_mode")
+    if nm == "contains_key" and mode in ("present", "absent"):
+        I.side["entry_style"] = "match"
+        return st, BoolV(mode == "present")
     if nm in ("is_empty", "contains_key"):
+        if nm == "contains_key":
+            I.side["entry_style"] = "match"
         return st, BoolV(None, None, d)
     if nm in ("get", "get_mut", "get_key_value"):
         tgt = RefV(row_cell, (), nm == "get_mut") if row_cell is not None else Top(d, "row")
+        if nm == "get_mut":
+            I.side["entry_style"] = "match"
+        if mode == "present":
+            return st, EnumV.some(tgt)
+        if mode == "absent":
+            return st, EnumV.none()
         return st, _opt(tgt, True, d)
     if nm in ("values", "values_mut", "iter", "iter_mut", "keys"):
         if nm == "keys":
@@ -1746,8 +1816,12 @@ def install(models):
                 return M.m_abs_diff
             if nm == "from_str_radix":
                 return m_parse_result
+            if nm in ("to_be_bytes", "to_le_bytes", "to_ne_bytes"):
+                return m_to_bytes
+            if nm in ("from_be_bytes", "from_le_bytes", "from_ne_bytes"):
+                return m_from_bytes
         if name.startswith("std::collections::HashMap::<K, V, S") and nm in (
-                "len", "capacity", "is_empty", "contains_key", "get", "get_key_value", "values", "keys", "iter"):
+                "len", "capacity", "is_empty", "contains_key", "get", "get_mut", "get_key_value", "values", "keys", "iter"):
             return m_hm_readonly
         if name.startswith("core::tuple::<impl std::cmp::PartialOrd for (") and nm in ("lt", "le", "gt", "ge"):
             return m_tuple_cmp
